@@ -65,10 +65,38 @@ UB == {FileD(<<BmEl(EA, EB)>> \o u) : u \in UNION {Unreach(e) : e \in {EA, Mem(I
                     Elem("o", <<Attr("id", "", EV(EB))>>, <<Elem("i", <<Attr("style", "", EV(EA)), Attr("mark:", "m", EV(Id("l")))>>, <<>>)>>)>>)}
       \cup UA
 
-UCases == CASE Family = "UB" -> UB [] Family = "UA" -> UA [] Family = "UT" -> UT [] Family = "UD" -> UD [] Family = "UI" -> UI
+(* path-pair family: ONE binding reading TWO dependency paths, so that a change marked on either of them - and on
+   each only - must refresh it.  The paths share roots, differ in static keys, differ in dynamic index expressions
+   (l[a] vs l[b]: same shape, different temporaries) or are unrelated. *)
+DepPaths == { EA, EB, Idx(Id("l"), EA), Idx(Id("l"), EB), Idx(Id("l"), Lit("0")), Idx(Id("l"), Lit("2")),
+              Mem(Id("o"), "p"), Mem(Id("o"), "q"), Idx(Id("o"), Id("s")), Idx(Id("o"), Lit("'q'")),
+              Mem(Idx(Id("m"), EA), "v"), Mem(Idx(Id("m"), EB), "v") }
+PairForms(x, y) == { File1(<<Text(<<P(x), S(" / "), P(y)>>)>>),
+                     File1(<<Elem("v", <<Attr("plain", "p", EV(Arr(<<Item(x), Item(y)>>)))>>, <<>>)>>),
+                     File1(<<Elem("v", <<Attr("class", "", MV(<<S("c "), P(x), S(" "), P(y)>>))>>, <<>>)>>),
+                     File1(<<If(<<[c |-> EV(Bin("===", x, y)), ch |-> <<Elem("y", <<>>, <<>>)>>]>>, TRUE, <<Elem("n", <<>>, <<>>)>>)>>),
+                     File1(<<Text(<<P(Cond(Id("t"), x, y))>>)>>) }
+UP == UNION { PairForms(xy[1], xy[2]) : xy \in {z \in DepPaths \X DepPaths : z[1] # z[2]} }
+DP == VO(<< <<"a", VI(0)>>, <<"b", VI(1)>>, <<"t", VB(TRUE)>>, <<"s", VS("p")>>,
+            <<"o", VO(<< <<"p", VS("op")>>, <<"q", VS("oq")>> >>)>>,
+            <<"l", VA(<<VS("l0"), VS("l1"), VS("l2")>>)>>,
+            <<"m", VA(<<VO(<< <<"v", VS("m0")>> >>), VO(<< <<"v", VS("m1")>> >>), VO(<< <<"v", VS("m2")>> >>)>>)>> >>)
+Alt(cur, x, y) == IF cur = x THEN y ELSE x
+UPEdits(d) ==
+    LET l == GetS(d, "l")  o == GetS(d, "o")  m == GetS(d, "m")
+        one == { [p |-> <<"l", "0">>, v |-> Alt(l.xs[1], VS("n0"), VS("k0"))], [p |-> <<"l", "1">>, v |-> Alt(l.xs[2], VS("n1"), VS("k1"))],
+                 [p |-> <<"l", "2">>, v |-> Alt(l.xs[3], VS("n2"), VS("k2"))],
+                 [p |-> <<"o", "p">>, v |-> Alt(GetS(o, "p"), VS("np"), VS("kp"))], [p |-> <<"o", "q">>, v |-> Alt(GetS(o, "q"), VS("nq"), VS("kq"))],
+                 [p |-> <<"m", "0", "v">>, v |-> Alt(GetS(m.xs[1], "v"), VS("x0"), VS("y0"))],
+                 [p |-> <<"m", "1", "v">>, v |-> Alt(GetS(m.xs[2], "v"), VS("x1"), VS("y1"))],
+                 [p |-> <<"a">>, v |-> Alt(GetS(d, "a"), VI(2), VI(0))], [p |-> <<"b">>, v |-> Alt(GetS(d, "b"), VI(0), VI(1))],
+                 [p |-> <<"s">>, v |-> Alt(GetS(d, "s"), VS("q"), VS("p"))], [p |-> <<"t">>, v |-> VB(~GetS(d, "t").b)] }
+    IN { <<e>> : e \in one }
+
+UCases == CASE Family = "UP" -> UP [] Family = "UB" -> UB [] Family = "UA" -> UA [] Family = "UT" -> UT [] Family = "UD" -> UD [] Family = "UI" -> UI
             [] Family = "US" -> US [] Family = "F2" -> F2 [] Family = "F4" -> F4 [] Family = "F5" -> F5 [] Family = "F6" -> F6
 
-UDatas == IF Family = "F6" THEN {DS} ELSE {D1, D5, D3}
+UDatas == IF Family = "F6" THEN {DS} ELSE IF Family = "UP" THEN {DP} ELSE {D1, D5, D3}
 
 IGroup == [p \in {files[i].path : i \in 1..Len(files)} |-> CHOOSE f \in {files[i] : i \in 1..Len(files)} : f.path = p]
 TreeOf(d) == RenderFile(IGroup, "a", d)
@@ -77,7 +105,7 @@ TreeOf(d) == RenderFile(IGroup, "a", d)
 F6Edits == { <<[p |-> <<n>>, v |-> VS("N" \o n)]>> : n \in {"x", "y", "item", "index", "m"} }
             \cup { <<[p |-> <<"x">>, v |-> VS("Nx")], [p |-> <<"item">>, v |-> VS("Nitem")], [p |-> <<"index">>, v |-> VS("Nindex")]>>,
                    <<[p |-> <<"l", "0">>, v |-> VS("NI0")]>>, <<[p |-> <<"l">>, v |-> VA(<<VS("I1"), VS("I0"), VS("I2")>>)]>> }
-EditMenu(d) == IF Family = "F6" THEN F6Edits ELSE EditsOn(d)
+EditMenu(d) == IF Family = "F6" THEN F6Edits ELSE IF Family = "UP" THEN UPEdits(d) ELSE EditsOn(d)
 
 CoverOf(kind, ps) == CASE kind = "exact" -> Exact(ps) [] kind = "coarse" -> Coarse(ps) [] OTHER -> Whole
 
